@@ -1,5 +1,7 @@
 """C01 rules: argument roles of the HDF5 wrappers (R-ROLE), growable storage (R-CREATE), read/write path
 symmetry, append bookkeeping, calibration placement."""
+import re
+
 from ..absint import GenericInterp, Opaque
 from ..extract import AnalysisBroken
 from ..sem import Sem, Flow, term, unwrap, real_args
@@ -39,6 +41,23 @@ def run_roles(prog, rep):
     a = [term(x) for x in c.c]
     ok = a[1] == ('m', 'c_str', pv(f, 'name')) and a[2] == pv(f, 'offset') and a[3] == ('mem', 'hid', pv(f, 'dtype'))
     rule.check(ok, 'DataType::insert|args', rep.where(c), f.q, 'H5Tinsert(hid, name, offset, member type)')
+    # DataSet::read / write: (memory type, memory space, file space, data) in the positions H5Dread / H5Dwrite expect
+    for nm, api in (('read', 'H5Dread'), ('write', 'H5Dwrite')):
+        cands = [x for x in prog.fns('nix::hdf5::DataSet::' + nm) if x.body is not None and x.calls(name=api)]
+        if not cands:
+            raise AnalysisBroken('anchor vanished: DataSet::%s calling %s' % (nm, api))
+        for f in cands:
+            c = f.calls(name=api)[0]
+            a = [term(x) for x in c.c]
+            pn = {p['name']: ('v', p['lid'], p['name']) for p in f.params}
+            mt = [p for p in f.params if 'DataType' in p['type']]
+            sp = [p for p in f.params if 'DataSpace' in p['type']]
+            dp = [p for p in f.params if 'void' in p['type']]
+            ok = len(mt) == 1 and len(sp) == 2 and len(dp) == 1 and a[0] == ('f', 'hid') and a[1] == ('m', 'h5id', pn[mt[0]['name']]) \
+                and a[2] == ('m', 'h5id', pn[sp[0]['name']]) and a[3] == ('m', 'h5id', pn[sp[1]['name']]) and a[5] == pn[dp[0]['name']] \
+                and 'mem' in sp[0]['name'].lower() and 'file' in sp[1]['name'].lower()
+            rule.check(ok, 'DataSet::%s|args' % nm, rep.where(c), f.label(), '%s(hid, memType, memSpace, fileSpace, H5P_DEFAULT, data)' % api,
+                       '%s receives %s' % (api, c.src(120)))
     # offsetCount2DataSpaces(count, offset): memory space from count, file selection hyperslab(count, offset)
     f = prog.fn('nix::hdf5::DataSet::offsetCount2DataSpaces')
     it = GenericInterp(prog, watch=lambda n: (n.callee or {}).get('name') in ('hyperslab', 'create', 'getSpace'))
@@ -421,6 +440,21 @@ def run_dcpl(prog, rep):
         for c in f.calls():
             if (c.callee.get('name') or '') in ('H5Dcreate', 'H5Dcreate2', 'H5Dcreate1'):
                 others.append(f.q)
+    # raw data transfers use the default transfer property list (a data transform / other transfer setting would change the values on the way)
+    xfer = []
+    nx = 0
+    for f in prog.funcs.values():
+        if f.body is None or not f.q.startswith('nix::'):
+            continue
+        for c in f.calls():
+            if (c.callee.get('name') or '') in ('H5Dread', 'H5Dwrite'):
+                nx += 1
+                a = real_args(c)
+                if len(a) < 6 or a[4].get('macro') != 'H5P_DEFAULT':
+                    xfer.append('%s passes %s as transfer property list (line %s)' % (f.q, a[4].src(20) if len(a) > 4 else '?', c.l))
+    if nx < 2:
+        raise AnalysisBroken('R-DCPL: H5Dread/H5Dwrite call sites vanished')
+    rule.check(not xfer, 'H5Dread/H5Dwrite|transfer-plist', rep.where(cd), 'nix::hdf5::DataSet', '%d raw transfers use H5P_DEFAULT' % nx, '; '.join(xfer[:2]))
     rule.check(not others, 'H5Dcreate|who-calls', rep.where(cd), cd.q, 'data sets are created only by H5Group::createData', 'data sets are also created by %s (settings not examined)' % sorted(set(others)))
     return rule
 
@@ -448,4 +482,47 @@ def run_growable(prog, rep):
                     probs.append('max_size_unlimited is false')
                 key = '%s%s|maxsize' % (q, '(%d)' % len(f.params))
                 rule.check(not probs, key, rep.where(c), f.label(), '%s: no maximum size' % what, '; '.join(probs))
+    return rule
+
+
+def run_swapped(prog, rep):
+    """swapped-argument rule: when two arguments of a call are variables that carry the names of two of the callee's parameters,
+    each sits in the position of the parameter it is named after"""
+    rule = rep.rule('R-SWAP', 'arguments named like the callee\'s parameters are passed in those parameters\' positions (no crossed offset/count, memory/file space, start/end ...)', floor=20)
+    n = 0
+    seen = set()
+    for f in sorted(prog.funcs.values(), key=lambda f: (f.file, f.line)):
+        if f.body is None or not f.q.startswith('nix::') or f.instantiation and f.pattern in seen:
+            continue
+        if f.instantiation:
+            seen.add(f.pattern)
+        for c in f.calls():
+            if c.get('op'):
+                continue
+            tg = prog.resolve_call(c)
+            if not tg or not tg[0].q.startswith('nix::'):
+                continue
+            t = tg[0]
+            pn = [p['name'] for p in t.params]
+            args = real_args(c)
+            if len(args) != len(pn) and len(args) > len(pn):
+                continue
+            names = []
+            for a in args:
+                x = unwrap(a) if a is not None else None
+                names.append(x.decl.get('name') if x is not None and x.k == 'ref' and x.decl.get('kind') in ('param', 'local') else None)
+            hits = [(i, nm) for i, nm in enumerate(names) if nm and nm in pn]
+            if len(hits) < 2:
+                continue
+            n += 1
+            crossed = [(i, nm) for i, nm in hits if pn[i] != nm and pn.index(nm) < len(names) and names[pn.index(nm)] == pn[i] and
+                       t.params[i]['type'].replace('const ', '') == t.params[pn.index(nm)]['type'].replace('const ', '')]
+            key = '%s|%s@%d' % (re.sub(r'<.*', '', f.q), t.name, c.l)
+            if crossed:
+                i, nm = crossed[0]
+                rule.bad(key, rep.where(c), f.label(), 'argument %s is passed as parameter %s of %s while %s is passed as %s: the two are crossed' % (nm, pn[i], t.q, pn[i], nm))
+            else:
+                rule.ok(key, rep.where(c), f.label(), '%s in place' % ', '.join(nm for i, nm in hits), nontrivial=False)
+    if n < 20:
+        raise AnalysisBroken('R-SWAP: only %d calls with name-matching arguments found' % n)
     return rule
